@@ -6,6 +6,7 @@ import (
 	"hash/fnv"
 	"sort"
 	"strconv"
+	"strings"
 
 	"k8s.io/apimachinery/pkg/apis/meta/v1/unstructured"
 )
@@ -32,7 +33,8 @@ type PhaseP struct {
 	Class  string   `json:"class"`
 	Keys   []string `json:"keys"` // object keys (namespace defaulted to the owner's)
 	CPs    []string `json:"cps"`  // collision protection per object
-	Slices []string `json:"slices"`
+	Slices []string `json:"slices"` // keys of the ObjectSlice objects
+	PhaseKey string `json:"phaseKey"` // key of the ObjectSetPhase object realising this phase when delegated
 }
 
 // CRP is the projection of PKO's own control fields (zero value for other objects).
@@ -58,6 +60,8 @@ type CRP struct {
 // Proj is the abstract state of one API object — exactly the fields of ObjRec in spec/Store.tla.
 type Proj struct {
 	Exists   bool     `json:"exists"`
+	Kind     string   `json:"kind"`
+	OID      string   `json:"oid"` // Kind/name — how owner references name this object
 	UID      string   `json:"uid"`
 	RV       int64    `json:"rv"`
 	Gen      int64    `json:"gen"`
@@ -171,6 +175,8 @@ func (pr *Projector) Project(m map[string]any) Proj {
 	}
 	u := unstructured.Unstructured{Object: m}
 	p.Exists = true
+	p.Kind = u.GetKind()
+	p.OID = u.GetKind() + "/" + u.GetName()
 	p.UID = string(u.GetUID())
 	p.RV, _ = strconv.ParseInt(u.GetResourceVersion(), 10, 64)
 	p.Gen = u.GetGeneration()
@@ -258,7 +264,7 @@ func objKeyOf(obj map[string]any, defaultNS string) string {
 	return k.String()
 }
 
-func projectPhases(phases []any, ns string) []PhaseP {
+func projectPhases(phases []any, ns string, ownerKind, ownerName string) []PhaseP {
 	var out []PhaseP
 	for _, ph := range phases {
 		pm, _ := ph.(map[string]any)
@@ -275,10 +281,19 @@ func projectPhases(phases []any, ns string) []PhaseP {
 			pp.CPs = append(pp.CPs, cp)
 		}
 		sl, _ := pm["slices"].([]any)
+		slKind := "ObjectSlice"
+		if strings.HasPrefix(ownerKind, "Cluster") {
+			slKind = "ClusterObjectSlice"
+		}
 		for _, s := range sl {
 			str, _ := s.(string)
-			pp.Slices = append(pp.Slices, str)
+			pp.Slices = append(pp.Slices, Key{Group: pkoGroup, Kind: slKind, NS: ns, Name: str}.String())
 		}
+		phKind := "ObjectSetPhase"
+		if strings.HasPrefix(ownerKind, "Cluster") {
+			phKind = "ClusterObjectSetPhase"
+		}
+		pp.PhaseKey = Key{Group: pkoGroup, Kind: phKind, NS: ns, Name: ownerName + "-" + pp.Name}.String()
 		out = append(out, pp)
 	}
 	return out
@@ -319,11 +334,11 @@ func projectCR(u *unstructured.Unstructured) CRP {
 		c.Revision = toInt(status["revision"])
 		if prev, ok := spec["previous"].([]any); ok {
 			for _, x := range prev {
-				c.Previous = append(c.Previous, getStr(x.(map[string]any), "name"))
+				c.Previous = append(c.Previous, Key{Group: pkoGroup, Kind: kind, NS: ns, Name: getStr(x.(map[string]any), "name")}.String())
 			}
 		}
 		ph, _ := spec["phases"].([]any)
-		c.Phases = projectPhases(ph, ns)
+		c.Phases = projectPhases(ph, ns, kind, u.GetName())
 		if rp, ok := status["remotePhases"].([]any); ok {
 			for _, x := range rp {
 				xm := x.(map[string]any)
@@ -342,18 +357,18 @@ func projectCR(u *unstructured.Unstructured) CRP {
 		c.Revision = toInt(spec["revision"])
 		if prev, ok := spec["previous"].([]any); ok {
 			for _, x := range prev {
-				c.Previous = append(c.Previous, getStr(x.(map[string]any), "name"))
+				c.Previous = append(c.Previous, Key{Group: pkoGroup, Kind: strings.TrimSuffix(kind, "Phase"), NS: ns, Name: getStr(x.(map[string]any), "name")}.String())
 			}
 		}
 		objs, _ := spec["objects"].([]any)
-		c.Phases = projectPhases([]any{map[string]any{"name": "", "objects": objs}}, ns)
+		c.Phases = projectPhases([]any{map[string]any{"name": "", "objects": objs}}, ns, kind, u.GetName())
 		c.Class = u.GetLabels()["package-operator.run/phase-class"]
 	case "ObjectDeployment", "ClusterObjectDeployment":
 		c.Paused, _ = spec["paused"].(bool)
 		tmpl := nestedMap(spec, "template")
 		tspec := nestedMap(tmpl, "spec")
 		ph, _ := tspec["phases"].([]any)
-		c.Phases = projectPhases(ph, ns)
+		c.Phases = projectPhases(ph, ns, kind, u.GetName())
 		c.TmplHash = shortHash([]any{tspec["phases"], tspec["availabilityProbes"], tspec["successDelaySeconds"]})
 		c.Hash = getStr(status, "templateHash")
 		c.Revision = toInt(status["revision"])
@@ -363,7 +378,7 @@ func projectCR(u *unstructured.Unstructured) CRP {
 		}
 	case "ObjectSlice", "ClusterObjectSlice":
 		objs, _ := m["objects"].([]any)
-		ph := projectPhases([]any{map[string]any{"name": "", "objects": objs}}, ns)
+		ph := projectPhases([]any{map[string]any{"name": "", "objects": objs}}, ns, kind, u.GetName())
 		if len(ph) == 1 {
 			c.Objects = ph[0].Keys
 		}
